@@ -11,9 +11,17 @@ from common import (NCPU, HarnessError, build_dir, extract_block, log, parse_sta
 PROP = "C04"
 
 BUDGET = {
-    "quick": {"bridges": 128, "traces": 50},
-    "thorough": {"bridges": 2000, "traces": 200},
+    "quick": {"bridges": 128, "traces": 50, "omit": 24},
+    "thorough": {"bridges": 2000, "traces": 200, "omit": 300},
 }
+# "negative" bridges (gen.mjs::negativeSpecs / omitSpec): a method leaves a definition-implied bound implicit. The tool is
+# expected to reject them; one it accepts is checked like any other bridge (the model knows the implied bound)
+N_NEGATIVE = 4
+NEG_BASE, OMIT_BASE = -10, 1000000
+
+
+def is_negative(idx):
+    return idx <= NEG_BASE or idx >= OMIT_BASE
 ABIS = [("legacy", []), ("spec", ["--config", "js.abi=spec"])]
 
 
@@ -23,8 +31,17 @@ CATALOGUE = -1  # bridge index of the fixed catalogue of delicate shapes (gen.mj
 def prepare_bridge(tool, js_dir, work, seed, idx):
     """gen.mjs -> src/lib.rs + desc.json; the real tool -> api/ for both ABIs. Returns [(abi, dir)] and rejected count."""
     base = os.path.join(work, "b%d" % idx if idx != CATALOGUE else "catalogue")
-    gen_args = ["--catalogue", "1"] if idx == CATALOGUE else ["--seed", str(seed), "--bridge", str(idx)]
+    if idx == CATALOGUE:
+        gen_args = ["--catalogue", "1"]
+    elif idx <= NEG_BASE:
+        gen_args = ["--negative", str(NEG_BASE - idx)]
+    elif idx >= OMIT_BASE:
+        gen_args = ["--seed", str(seed), "--omit", str(idx - OMIT_BASE)]
+    else:
+        gen_args = ["--seed", str(seed), "--bridge", str(idx)]
     rc, out, err = run_capture(["node", os.path.join(js_dir, "gen.mjs")] + gen_args + ["--out", base])
+    if rc == 3 and "NO-SPEC" in out:
+        return [], 0, 0
     if rc != 0:
         raise HarnessError("gen.mjs failed: %s" % err[-2000:])
     ready, rejected, crashed = [], 0, 0
@@ -74,6 +91,16 @@ def check(tier, seed):
     for abi, d in cat_ready:
         for part in range(10):
             jobs.append((CATALOGUE, abi, d, part * b["traces"], (part + 1) * b["traces"]))
+    # negative bridges: rejected ones are the expected outcome and are not part of the 25 % rule below
+    neg_idx = [NEG_BASE - k for k in range(N_NEGATIVE)] + [OMIT_BASE + i for i in range(b["omit"])]
+    with ThreadPoolExecutor(max_workers=NCPU) as ex:
+        neg_prepared = list(ex.map(lambda i: (i, prepare_bridge(tool, js_dir, work, seed, i)), neg_idx))
+    neg_accepted = 0
+    for idx, (ready, _, ncr) in neg_prepared:
+        crashed += ncr
+        for abi, d in ready:
+            neg_accepted += 1
+            jobs.append((idx, abi, d, 0, 4 * b["traces"]))
     total_gen = b["bridges"] * len(ABIS)
     if rejected * 4 > total_gen:
         raise HarnessError("more than 25%% of the generated bridges were rejected by the tool (%d of %d): the generator is broken" % (rejected, total_gen))
@@ -103,7 +130,7 @@ def check(tier, seed):
                 rep = json.loads(extract_block(out, "REPLAY"))
                 rep["abi"] = abi
                 rep["rust_source"] = open(os.path.join(os.path.dirname(d), "src", "lib.rs")).read()
-                p = save_replay("C04-gc-%d-b%s-%s.json" % (seed, "cat" if idx == CATALOGUE else idx, abi), json.dumps(rep, indent=1))
+                p = save_replay("C04-gc-%d-b%s-%s.json" % (seed, "cat" if idx == CATALOGUE else ("neg%d" % (NEG_BASE - idx) if idx <= NEG_BASE else idx), abi), json.dumps(rep, indent=1))
                 violations += [v.replace("replay=-", "replay=" + p) + " abi=" + abi for v in viols]
     if counters.get("probe_lender_unreachable_while_borrower_held", 0) == 0:
         raise HarnessError("the simulation is vacuous: no GC point ever found a lender unreachable while its borrower was held")
@@ -117,7 +144,7 @@ def check(tier, seed):
                  "distinct = FNV-64 of the op list per (bridge, ABI); non-trivial = at least one GC point at which something a held value may borrow from was no longer held by the program (the configuration S1 exists for)."),
         "samples": samples,
         "exhaustive": False,
-        "bridges_generated": b["bridges"], "catalogue_bridge": catalogue_status, "bridge_abi_pairs_run": totals["bridges_run"], "tool_rejected": rejected, "tool_crashed_on_generated_bridge": crashed,
+        "bridges_generated": b["bridges"], "catalogue_bridge": catalogue_status, "negative_bridges": {"generated": len(neg_idx), "bridge_abi_pairs_accepted_by_the_tool_and_run": neg_accepted, "note": "methods that leave a definition-implied bound implicit; the tool's validation is expected to reject them"}, "bridge_abi_pairs_run": totals["bridges_run"], "tool_rejected": rejected, "tool_crashed_on_generated_bridge": crashed,
         "distinct_traces": totals["distinct_traces"], "max_distinct_op_transitions_per_bridge": transitions,
         "fault_kinds_fired": {k: v for k, v in counters.items() if k.startswith("fault_")},
         "reach_probes": {k: v for k, v in sorted(counters.items()) if not k.startswith("fault_") and not k.startswith("ops_")},
@@ -153,6 +180,10 @@ def replay(path):
     ready, rejected, _ = prepare_bridge(tool, js_dir, work, rep["seed"], rep["bridge"])
     dirs = dict(ready)
     if rep.get("abi") not in dirs:
+        if is_negative(rep["bridge"]):
+            # the expected outcome for a method that leaves a definition-implied bound implicit: nothing is generated
+            print("REPLAY-OK the tool rejects this bridge on this tree (no bindings are generated, so nothing can be freed early)")
+            return 0
         print("the tool rejects this bridge for ABI %s on this tree; nothing to replay" % rep.get("abi"))
         return 2
     rc, out, err = run_capture(["node", "--expose-gc", os.path.join(js_dir, "gcsim.mjs"), "--dir", dirs[rep["abi"]], "--replay", path])
